@@ -70,7 +70,10 @@ impl<T> Combine for ListBuilder<T> {
 
 type DiagsBuilder = ListBuilder<Diag>;
 
-pub trait Pass: VisitProgram<Output = DiagsBuilder, Error = ()> {}
+pub trait Pass: VisitProgram<Output = DiagsBuilder, Error = ()> {
+    /// Forget whatever an earlier program left behind; called before every run.
+    fn reset(&mut self) {}
+}
 
 pub type Passes = Vec<Box<dyn Pass>>;
 
@@ -92,7 +95,10 @@ fn postprocess(mut diags: Vec<Diag>) -> LinterResult {
 impl Linter {
     pub fn run(&mut self, program: &Program) -> LinterResult {
         postprocess(
-            combine_all(self.passes.iter_mut().map(|p| p.visit_program(&program)))
+            combine_all(self.passes.iter_mut().map(|p| {
+                p.reset();
+                p.visit_program(&program)
+            }))
                 .unwrap_or_default()
                 .build(),
         )
